@@ -662,6 +662,104 @@ def overread_cases(rng, tier):
     return out
 
 
+# ------------------------------------------------------------------------------------------
+# size-directed records: the serialised size lands exactly on and around the limits of the format
+# ------------------------------------------------------------------------------------------
+def _raw_unit(sect, owner, L, fill):
+    """an opaque RR (RAW_RR, type 65280) with L octets of RDATA; owner is presentation text"""
+    return "r,%d,%s,65536,1,0,6553601=65280,6553602=b%s" % (sect, owner.hex(), bytes((fill + i) & 255 for i in range(L)).hex())
+
+
+def _txt_unit(sect, owner, lens, fill):
+    strs = "|".join(bytes((fill + i + j) & 255 for i in range(m)).hex() for j, m in enumerate(lens))
+    return "r,%d,%s,16,1,0,1601=a%s" % (sect, owner.hex(), strs)
+
+
+def sized_record(target, variant, qlabel=b"a", pre=-1, ident=7):
+    """a record whose wire form has exactly [target] octets (computed: header 12, question name
+    + 4, every RR = 2 (pointer to the question name) + 10 + RDLENGTH), or None when impossible"""
+    qn = qlabel
+    base = 12 + (1 + len(qlabel) + 1) + 4
+    units = ["q,%s,1,1" % qn.hex()]
+    room = target - base
+    if variant == "one-raw":
+        L = room - 12
+        if not (1 <= L <= 70000):
+            return None
+        units.append(_raw_unit(1, qn, L, 1))
+    elif variant == "two-raw":
+        L1 = (room - 24) // 2
+        L2 = room - 24 - L1
+        if L1 < 1 or L2 < 1:
+            return None
+        units.append(_raw_unit(1, qn, L1, 3))
+        units.append(_raw_unit(2, qn, L2, 5))
+    elif variant == "txt-bulk":
+        # TXT RRs of one 255-octet string each (268 octets per RR), the rest in an opaque RR
+        n = max(0, (room - 12 - 1) // 268 - 1)
+        rest = room - n * 268 - 12
+        if rest < 1:
+            return None
+        for i in range(n):
+            units.append(_txt_unit(1, qn, [255], i))
+        units.append(_raw_unit(3, qn, rest, 9))
+    elif variant == "raw-opt":
+        # an OPT RR (root owner: 1 + 10 octets, no options) behind one opaque RR
+        L = room - 12 - 11
+        if L < 1:
+            return None
+        units.append(_raw_unit(1, qn, L, 11))
+        units.append("r,3,,41,1,0,4101=1232,4103=0,4104=0")
+    head = "b:%d:0:0:0" % ident + ("" if pre < 0 else ":%d" % pre)
+    return head + "|" + ";".join(units)
+
+
+def size_cases(rng, tier):
+    out = []
+    variants = ["one-raw", "two-raw", "txt-bulk", "raw-opt"]
+    pres = [-1, 0, 3, 1000]
+    k = 0
+    # the 64k limit of a message (and of a TCP frame)
+    for target in (65533, 65534, 65535, 65536, 65537, 65538):
+        for v in (variants if tier != "quick" else variants[:3]):
+            c = sized_record(target, v, pre=pres[k % 4] if tier == "quick" else -1, ident=target & 0xFFFF)
+            k += 1
+            if c:
+                out.append(c)
+            if tier != "quick":
+                for pre in (0, 2, 70000):
+                    c = sized_record(target, v, pre=pre, ident=target & 0xFFFF)
+                    if c:
+                        out.append(c)
+    # RDLENGTH 65534..65537 (the message is then over the limit anyway)
+    for L in (65534, 65535, 65536, 65537):
+        out.append("b:9:0:0:0:%d|q,61,1,1;%s" % (rng.choice([0, 5]), _raw_unit(1, b"a", L, 2)))
+    # small sizes for contrast, framed behind a few octets
+    for target in (31, 32, 100, 511, 512, 513, 4096):
+        c = sized_record(target, rng.choice(["one-raw", "two-raw"]), pre=rng.choice([0, 1, 2, 7]))
+        if c:
+            out.append(c)
+    # the 14 bit limit of a compression pointer: a name first written at offset 16380..16387 and used again
+    for at in range(16380, 16388):
+        L = at - 19 - 12
+        nm = b"n%d.a" % (at % 10)
+        units = ["q,61,1,1", _raw_unit(1, b"a", L, 4),
+                 "r,1,%s,2,1,60,201=s%s" % (nm.hex(), nm.hex()),
+                 "r,2,%s,5,1,60,501=s%s" % ((b"w." + nm).hex(), nm.hex())]
+        out.append("b:%d:0:0:0:%d|" % (at, rng.choice([0, 2])) + ";".join(units))
+    # <character-string>s of 254 / 255 / 256 octets and names of 253..257 octets on the wire
+    for m in (254, 255, 256):
+        out.append("b:5:0:0:0:0|q,61,1,1;" + _txt_unit(1, b"a", [m, 1], 7))
+        out.append("b:5:0:0:0|q,61,1,1;r,1,61,13,1,0,1301=s%s,1302=s%s" % ((b"x" * m).hex(), b"y".hex()))
+    for wire in (253, 254, 255, 256, 257):
+        # labels of 63 octets and a last one making up the total: wire = sum(1 + len) + 1
+        rest = wire - 1 - 3 * 64
+        labels = [b"l" * 63, b"m" * 63, b"n" * 63] + ([b"o" * (rest - 1)] if rest > 1 else [])
+        nm = b".".join(labels)
+        out.append("b:6:0:0:0:0|q,%s,1,1;r,1,%s,2,1,60,201=s%s" % (nm.hex(), nm.hex(), nm.hex()))
+    return out
+
+
 def pcase(rng, data, flags=None):
     f = rng.choice(PARSE_FLAGS) if flags is None else flags
     return "p:%d|%s" % (f, data.hex())
@@ -984,6 +1082,7 @@ def query_case(rng):
 def gen_c03(rng, tier, n):
     """the C03 stream"""
     out = []
+    out += size_cases(rng, tier)
     big_budget = 3 if tier == "quick" else 40
     while len(out) < n:
         r = rng.random()
